@@ -21,6 +21,7 @@ predicate("QWF", ["q: Ref[PlainQuantity]"], """
     and dims_ok(q._units, q._REGISTRY)
     and RegAll(q._REGISTRY) and FacOf(q._units, 1) > 0
     and AllMult(q._REGISTRY, q._units) and not truthy(q._REGISTRY._active_ctx)
+    and q._REGISTRY == reg_of_class(q)
     and implies(not is_none(q._dimensionality),
                 wf(some(q._dimensionality)) and forall[Str](lambda b: view(some(q._dimensionality))[b]
                                                              == (0 if b == '[]' else DimOf(b, q._units))))
@@ -52,11 +53,13 @@ contract(f"{Q}._convert_magnitude_not_inplace",
          raises={"DimensionalityError": "exists[Str](lambda b: b != '[]' and DimOf(b, self._units) != DimOf(b, other))"},
          ensures={"value": "result == self._magnitude * FacDiff(keys(self._units._d), vals(view(self._units)), "
                            "keys(other._d), vals(view(other)))",
+                  # the same fact in product form (what callers that add or compare converted magnitudes need)
+                  "value_scaled": "result * FacOf(other, 1) == self._magnitude * FacOf(self._units, 1)",
                   "q": "QWF(self)", "reg": "RegAll(self._REGISTRY)", "hashes": "HashesKept()"},
          modifies=["contents(self._REGISTRY._cache.dimensionality)", "contents(self._REGISTRY._cache.root_units)",
                    "contents(self._REGISTRY._cache.conversion_factor)", "allof(UnitsContainer._hash)"],
          allow_exc=("UndefinedUnitError", "OffsetUnitCalculusError", "KeyError", "TypeError", "ArithmeticError"),
-         theories=("lin", "fac"),
+         theories=("lin", "fac", "facdiff"),
          note="multiplicative units, no context: registry.convert -> Context / NonMultiplicative / plain _convert, all verified "
               "(c02_chain, c01_registry)",
          props=["C05", "C03", "C15", "C02"])
